@@ -116,6 +116,10 @@ type World struct {
 
 type ctxKey struct{}
 
+type simController struct{ add func() }
+
+func (c simController) AddRoutes(_ *rux.Router) { c.add() }
+
 //go:norace
 func (w *World) curState() *reqState {
 	t := shCur()
@@ -235,7 +239,11 @@ func (w *World) register(ops []RegOp, frame []string) {
 				cur = w.frames[len(w.frames)-1]
 			}
 			w.frames = append(w.frames, append(append([]string{}, cur...), op.MW...))
-			r.Group(op.Path, func() { w.register(op.Body, nil) }, w.hs(op.MW)...)
+			if op.Via == "controller" { // Router.Controller = a group whose body is the controller's AddRoutes
+				r.Controller(op.Path, simController{func() { w.register(op.Body, nil) }}, w.hs(op.MW)...)
+			} else {
+				r.Group(op.Path, func() { w.register(op.Body, nil) }, w.hs(op.MW)...)
+			}
 			w.frames = w.frames[:len(w.frames)-1]
 		case "route":
 			var rt *rux.Route
@@ -273,6 +281,10 @@ func (w *World) register(ops []RegOp, frame []string) {
 				rt = r.AddNamed(op.Name, op.Path, h, op.Methods...).Use(mw...)
 			case "any":
 				r.Any(op.Path, h, mw...)
+			case "attach": // NewRoute(...).Use(...).AttachTo(router)
+				rt = rux.NewRoute(op.Path, h, op.Methods...)
+				rt.Use(mw...)
+				rt.AttachTo(r)
 			default:
 				rt = r.Add(op.Path, h, op.Methods...).Use(mw...)
 			}
